@@ -17,6 +17,12 @@ DB_COMPONENTS = dict(
 )
 
 CLASS_PROPERTY = {
+    "snapshot_inconsistent": "C04",
+    "hang": None,
+    "panic": None,
+    "half_published": "C05",
+    "panic_swallowed": "C05",
+    "pipeline_gap": "C05",
     "crash_wrong_value": "C08",
     "crash_inputs_not_a_session": "C08",
     "lost_after_clean_shutdown": "C07",
@@ -89,7 +95,52 @@ PROPS["C08"] = dict(
                                  "the KvDatabase contract); kill -9 of real backends is a separate sub-check"],
 )
 
-HOOK_COMMITS = ["06b6edb", "0ffc033"]
+PROPS["C02"] = dict(
+    bin="engine_sim", packages=["engine_sim"], args=["--prop", "C02"],
+    quick_s=60, thorough_s=600, level="exploration", also=["C01", "C03"],
+    rule=("programs of C01 plus dedicated fan-in shapes (33-40 concurrent callers of one callee; 1025+ in the "
+          "thorough tier); histories alternate input sessions with phases of 2-6 (fan-in: all) user requests "
+          "running as separate tokio tasks with own or shared tracked engines; preempt and await hooks on "
+          "(uniform / PCT-style bursts / random site subsets). Oracles: from-scratch values for every value "
+          "handed out, no two live executions of one query, quiescence detector for completion, and the edit "
+          "after each phase re-queries so a lost backward edge shows as a stale value. non-trivial = a "
+          "concurrent phase in which a task waited for another task's computation of a shared callee "
+          "(cl_wait_existing / scc_wait probes) after a changing session; distinct = hash(program, history)"),
+    components=ENGINE_COMPONENTS,
+    assumptions=COMMON_ASSUME + ["parallelism is modelled as statement-level preemption of tasks on one thread "
+                                 "(sequential consistency); true multi-core weak-memory effects are out of scope",
+                                 "strict mode: the engine's own firewall-repair pass runs at each epoch start"],
+)
+PROPS["C04"] = dict(
+    bin="engine_sim", packages=["engine_sim"], args=["--prop", "C04"],
+    quick_s=60, thorough_s=600, level="exploration", also=["C01"],
+    rule=("programs of input and normal nodes; one writer task runs 1-5 sessions (each writes inputs with "
+          "values unique to that session, commit or plain drop) while 1-4 reader tasks loop tracked() / 1-3 "
+          "queries / drop; hooks inside tracked() and input_session() let the scheduler separate 'lock held' "
+          "from 'timestamp sampled'. Per tracked engine all returned values must be the from-scratch values "
+          "of ONE committed input state S_k with committed_before_call <= k <= started_before_return; then a "
+          "final sweep on the last state. non-trivial = a reader life overlapped a session (window hi > lo); "
+          "distinct = hash(program, history)"),
+    components=ENGINE_COMPONENTS,
+    assumptions=COMMON_ASSUME + ["a single writer task (two concurrently open sessions are documented to deadlock)"],
+)
+PROPS["C05"] = dict(
+    bin="engine_sim", packages=["engine_sim"], args=["--prop", "C05"],
+    quick_s=60, thorough_s=600, level="fault_enumeration", also=["C01"],
+    rule=("per sampled scenario (program x history x poll order) a calibration run counts the N suspension "
+          "points of the fault target, then EVERY n in 1..N is run (cap 40 quick / 400 thorough, then an even "
+          "sample): the user query, one of several concurrent requests, set_input, commit or the "
+          "input_session() call itself is dropped at its n-th suspension (preempt hooks off, so never at a "
+          "point where the real code cannot be suspended); or an executor panics at its k-th invocation. "
+          "Afterwards the runtime is run to quiescence, the history continues with sessions and queries, every "
+          "node is re-queried (from-scratch), no panic may be recorded anywhere later, and with "
+          "DbBacked<SimKv> shutdown must return with every created batch submitted and committed. "
+          "non-trivial = the fault fired; distinct = hash(program, history incl. n)"),
+    components=ENGINE_COMPONENTS,
+    assumptions=COMMON_ASSUME + ["cancellation = dropping the future at a Pending poll; a panic is injected in harness executors only"],
+)
+
+HOOK_COMMITS = ["06b6edb", "0ffc033", "d5f7b95"]
 
 NOT_BUILT = "check not built yet (work in progress in this session; see DESIGN.md section 8 for the order of construction)"
 NOT_APPLICABLE = {
@@ -97,11 +148,35 @@ NOT_APPLICABLE = {
             "clock, fault, I/O or interleaving for the property to depend on and no seam to own; pairwise distinctness "
             "over a type universe is enumeration, a different technique (DESIGN.md section 5)"),
 }
-for _p in ["C02", "C04", "C05", "C06", "C09", "C10", "C11", "C12", "C13", "C15", "C16"]:
+for _p in ["C06", "C09", "C10", "C11", "C12", "C13", "C15", "C16"]:
     if _p not in PROPS:
         NOT_APPLICABLE[_p] = NOT_BUILT
 
 MANIFEST_TEXT = {
+    "C02": dict(
+        text=("Seeded exploration of task interleavings: concurrent requests run as separate tasks of one "
+              "deterministic runtime; the controller injects yields at preempt/await hooks inside the engine "
+              "(statement-level preemption model). Values, single-flight, completion and lost-invalidation are "
+              "checked. Evidence over sampled programs and schedules."),
+        design_ref="DESIGN.md section 4 C02",
+        note="trusted: hook placement rules (DESIGN section 3), from-scratch oracle; structure-level thread interleavings are a separate sub-check when built",
+        technique="deterministic simulation: seeded schedule exploration with yield injection, reference-model and single-flight oracles",
+    ),
+    "C04": dict(
+        text=("Seeded exploration of reader/writer interleavings with a per-tracked-engine single-snapshot oracle "
+              "bounded by the commit/start order observed in the simulated run."),
+        design_ref="DESIGN.md section 4 C04",
+        note="trusted: total order of the recorded call/return events on the simulation thread",
+        technique="deterministic simulation: seeded schedule exploration, snapshot-consistency oracle over the recorded history",
+    ),
+    "C05": dict(
+        text=("Fault enumeration inside each sampled scenario: every suspension point of the target future is a "
+              "cancellation point that is actually run; executor panics at each early invocation. The engine "
+              "must stay fully usable afterwards."),
+        design_ref="DESIGN.md section 4 C05",
+        note="trusted: CancelAt counts Pending polls of the target; preempt hooks are off in these runs",
+        technique="deterministic simulation with fault injection: cancellation-point enumeration, panic injection",
+    ),
     "C07": dict(
         text=("Seeded exploration of restart positions: the real engine, caches and write-behind pipeline run on a "
               "simulated disk; clean shutdown and reopen are operations of the generated history; value and "
